@@ -65,64 +65,84 @@ class _AesStub:
         return cls._Cipher(key, initial_value)
 
 
-def h_channel(ctx, n, twin=None, order=None):
-    m = ctx.bytes_('plain', n)
-    ida, idb = ctx.bytes_('id_a', 32), ctx.bytes_('id_b', 32)
-    if order == 'eq':
-        ctx.assume(ida == idb)
+def _peers(ctx, names):
+    """key holders for the named peers; symbolic mode: plain holders of symbolic secrets with the stubs installed"""
     if ctx.symbolic:
-        a, b = ctx.bytes_('secret_a', 32), ctx.bytes_('secret_b', 32)
-        pub_a, pub_b = _uf('x25519_pub', a, 32), _uf('x25519_pub', b, 32)
+        sec = {p: ctx.bytes_(f'secret_{p}', 32) for p in names}
+        pub = {p: _uf('x25519_pub', sec[p], 32) for p in names}
 
-        def scalar_mult(priv, pub):
-            return _uf('x25519_dh', C.SymBytes.lift(priv) + C.SymBytes.lift(pub), 32)
-        # contract: ECDH commutes
-        ctx.assume(scalar_mult(a, pub_b) == scalar_mult(b, pub_a))
+        def scalar_mult(priv, pub_):
+            return _uf('x25519_dh', C.SymBytes.lift(priv) + C.SymBytes.lift(pub_), 32)
+        for i, p in enumerate(names):          # contract: ECDH commutes
+            for q in names[i + 1:]:
+                ctx.assume(scalar_mult(sec[p], pub[q]) == scalar_mult(sec[q], pub[p]))
         saved = (CI.x25519, CI.AES)
         CI.x25519 = types.SimpleNamespace(scalar_mult=scalar_mult)
         CI.AES = _AesStub
         _AesStub.calls = []
-        cl_a = types.SimpleNamespace(x25519_private=_Key(a), x25519_public=_Key(pub_a))
-        cl_b = types.SimpleNamespace(x25519_private=_Key(b), x25519_public=_Key(pub_b))
-        sv_a, sv_b = types.SimpleNamespace(x25519_public=_Key(pub_a)), types.SimpleNamespace(x25519_public=_Key(pub_b))
-    else:
-        # concrete replay: the real primitives; AES.new is only observed (arguments recorded, call passed through)
-        saved = (CI.x25519, CI.AES)
-        real_aes = CI.AES
-        _AesStub.calls = []
+        cl = {p: types.SimpleNamespace(x25519_private=_Key(sec[p]), x25519_public=_Key(pub[p])) for p in names}
+        sv = {p: types.SimpleNamespace(x25519_public=_Key(pub[p])) for p in names}
+        return cl, sv, saved
+    # concrete replay: the real primitives; AES.new is only observed (arguments recorded, call passed through)
+    saved = (CI.x25519, CI.AES)
+    real_aes = CI.AES
+    _AesStub.calls = []
 
-        def new(key, mode, **kw):
-            _AesStub.calls.append((key, kw.get('initial_value')))
-            return real_aes.new(key, mode, **kw)
-        CI.AES = types.SimpleNamespace(MODE_CTR=real_aes.MODE_CTR, new=new)
-        cl_a, cl_b = CI.Client(ctx.bytes_('secret_a', 32) or bytes(32)), CI.Client(ctx.bytes_('secret_b', 32) or bytes(32))
-        sv_a = CI.Server('a', 1, cl_a.ed25519_public.encode())
-        sv_b = CI.Server('b', 2, cl_b.ed25519_public.encode())
+    def new(key, mode, **kw):
+        _AesStub.calls.append((key, kw.get('initial_value')))
+        return real_aes.new(key, mode, **kw)
+    CI.AES = types.SimpleNamespace(MODE_CTR=real_aes.MODE_CTR, new=new)
+    cl = {p: CI.Client(ctx.bytes_(f'secret_{p}', 32) or bytes(32)) for p in names}
+    sv = {p: CI.Server(p, 1, cl[p].ed25519_public.encode()) for p in names}
+    return cl, sv, saved
+
+
+def _exchange(ctx, ch_x, ch_y, m, n, twin, same_ids, tag):
+    for (snd, rcv, d) in ((ch_x, ch_y, tag), (ch_y, ch_x, tag[::-1])):
+        _AesStub.calls = []
+        pkt = snd.encrypt(m)
+        ctx.require(len(pkt) == 64 + n, f'{d[0]}->{d[-1]}: packet length'.replace(d[0] + '->' + d[-1], 'X->Y'))
+        key_id, checksum, ct = pkt[:32], pkt[32:64], pkt[64:]
+        ctx.require(checksum == sha256(m), 'packet carries the SHA-256 of the plaintext')
+        ctx.require(key_id == rcv.server_aes_key_id, 'packet carries the key identifier the peer expects')
+        ctx.require(key_id == sha256(b'\xd4\xad\xbc-' + snd.enc_key), 'key identifier = sha256(magic + key)')
+        back = rcv.decrypt(ct, checksum)
+        if twin == 'wrongdir':
+            back = snd.decrypt(ct, checksum) if n else b'x'
+            ctx.assume(Not(same_ids))
+        ctx.require(back == m, 'the peer decrypts exactly the plaintext')
+        ctx.observe('packet length', len(pkt))
+        cs = sha256(m)
+        for (key, iv) in _AesStub.calls:
+            ok = Or(*[And(key == k[0:16] + cs[16:32], iv == cs[0:4] + k[20:32]) for k in (snd.enc_key, snd.dec_key)])
+            ctx.require(ok, 'AES key = key[0:16]+hash[16:32], iv = hash[0:4]+key[20:32]')
+    ctx.require(And(ch_x.enc_key == ch_y.dec_key, ch_x.dec_key == ch_y.enc_key), 'directional keys are mirrored between the peers')
+
+
+def h_channel(ctx, n, twin=None, order=None, third=False):
+    """A <-> B; with third=True a further key pair C then opens a channel to the same peer B (no state may be carried
+    over from the first channel), and A <-> B must still work afterwards"""
+    m = ctx.bytes_('plain', n)
+    names = ['a', 'b'] + (['c'] if third else [])
+    ids = {p: ctx.bytes_(f'id_{p}', 32) for p in names}
+    if order == 'eq':
+        ctx.assume(ids['a'] == ids['b'])
+    cl, sv, saved = _peers(ctx, names)
     try:
-        ch_a = CI.AdnlChannel(cl_a, sv_b, ida, idb)          # A's side: local id A, peer id B
-        ch_b = CI.AdnlChannel(cl_b, sv_a, idb, ida)          # B's side
-        for (snd, rcv, tag) in ((ch_a, ch_b, 'A->B'), (ch_b, ch_a, 'B->A')):
-            pkt = snd.encrypt(m)
-            ctx.require(len(pkt) == 64 + n, f'{tag}: packet length')
-            key_id, checksum, ct = pkt[:32], pkt[32:64], pkt[64:]
-            ctx.require(checksum == sha256(m), f'{tag}: packet carries the SHA-256 of the plaintext')
-            ctx.require(key_id == rcv.server_aes_key_id, f'{tag}: packet carries the key identifier the peer expects')
-            ctx.require(key_id == sha256(b'\xd4\xad\xbc-' + snd.enc_key), f'{tag}: key identifier = sha256(magic + key)')
-            back = rcv.decrypt(ct, checksum)
-            if twin == 'wrongdir':
-                back = snd.decrypt(ct, checksum) if n else b'x'
-                ctx.assume(Not(ida == idb))
-            ctx.require(back == m, f'{tag}: the peer decrypts exactly the plaintext')
-            ctx.observe('packet length', len(pkt))
-        ctx.require(And(ch_a.enc_key == ch_b.dec_key, ch_a.dec_key == ch_b.enc_key), 'directional keys are mirrored between the peers')
-        if True:
-            cs = sha256(m)
-            for (key, iv) in _AesStub.calls:
-                ok = Or(*[And(key == k[0:16] + cs[16:32], iv == cs[0:4] + k[20:32]) for k in (ch_a.enc_key, ch_a.dec_key)])
-                ctx.require(ok, 'AES key = key[0:16]+hash[16:32], iv = hash[0:4]+key[20:32]')
+        ch_a = CI.AdnlChannel(cl['a'], sv['b'], ids['a'], ids['b'])          # A's side: local id A, peer id B
+        ch_b = CI.AdnlChannel(cl['b'], sv['a'], ids['b'], ids['a'])          # B's side
+        _exchange(ctx, ch_a, ch_b, m, n, twin, ids['a'] == ids['b'], 'AB')
+        if third:
+            ch_c = CI.AdnlChannel(cl['c'], sv['b'], ids['c'], ids['b'])
+            ch_b2 = CI.AdnlChannel(cl['b'], sv['c'], ids['b'], ids['c'])
+            _exchange(ctx, ch_c, ch_b2, m, n, twin, ids['c'] == ids['b'], 'CB')
+            ch_a2 = CI.AdnlChannel(cl['a'], sv['b'], ids['a'], ids['b'])
+            _exchange(ctx, ch_a2, ch_b, m, n, twin, ids['a'] == ids['b'], 'AB')
     finally:
-        if saved:
-            CI.x25519, CI.AES = saved
+        CI.x25519, CI.AES = saved
+
+
+h_channel.symkeys = True
 
 
 def h_contract(ctx):
@@ -152,6 +172,7 @@ def instances(tier, seed):
     for n in ((0, 1, 16, 33) if tier == 'quick' else (0, 1, 2, 15, 16, 17, 31, 32, 33, 63, 64)):
         yield 'h_channel', dict(n=n)
     yield 'h_channel', dict(n=5, order='eq')
+    yield 'h_channel', dict(n=7, third=True)
 
 
 def twins(tier, seed):
@@ -159,7 +180,7 @@ def twins(tier, seed):
 
 
 BOUNDS = {'plaintext': 'lengths 0, 1, 16, 33 (quick) / 0..64 at block boundaries (thorough), contents symbolic',
-          'peers': 'both secrets and both 32-byte ids symbolic: the three id orderings are solver-decided forks'}
+          'peers': 'both secrets and both 32-byte ids symbolic: the three id orderings are solver-decided forks; one scenario with a third key pair opening a channel to the same peer'}
 OUTSIDE = ['the signature and mnemonic clauses of the property (libsodium Ed25519, PBKDF2): not encodable, see DESIGN.md section 7; '
            'h_contract exercises them on fixed vectors as validation only',
            'X25519, Ed25519->Curve25519 conversion, AES themselves', 'plaintexts longer than 64 bytes']
